@@ -1,2 +1,71 @@
-(* C01 - get_basis returns exactly the curated data it is composed from (theorems added as they are proved) *)
-From BSE Require Import Model.Val Model.Compose.
+(* C01 - get_basis returns exactly the curated data it is composed from.
+   Statements are in Proofs/ComposeDefs.v: the loop-and-dictionary shaped model of compose.py (caches of files read once)
+   refines the per-element specification spec_element. *)
+From BSE Require Import Model.Val Model.Elements Model.Compose Proofs.ComposeDefs Proofs.ComposeSpec.
+
+(* merge_element_data(None, sources): shells and reference groups concatenated in source order, the unique ECP, nothing else *)
+Theorem merge_sources_spec : merge_sources_spec_stmt.
+Proof. exact ComposeSpec.merge_sources_spec. Qed.
+Print Assumptions merge_sources_spec.
+
+Theorem merge_two_ecps_refused : merge_two_ecps_refused_stmt.
+Proof. exact ComposeSpec.merge_two_ecps_refused. Qed.
+Print Assumptions merge_two_ecps_refused.
+
+(* same element keys in the table's order; each element = the merge of exactly the component entries listed for it.
+   _partial: under the hypothesis that the basis metadata file has no "elements" key (its schema forbids it:
+   additionalProperties false); without it compose.py's final table_bs.update(bs_meta) would overwrite the composed
+   elements - counterexample in DESIGN.md *)
+Theorem compose_table_elements_partial :
+  forall d t b, compose_table_basis d t = inr b ->
+    (forall md, read_json_basis d (meta_path t) = inr (VDict md) -> assoc "elements" md = None) ->
+    exists table tels els',
+      read_json_basis d t = inr table /\ vfield "elements" table = inr (VDict tels) /\
+      vfield "elements" b = inr (VDict els') /\ map fst els' = map fst tels /\
+      Forall2 (fun kv' kv => exists efile, snd kv = VStr efile /\ spec_element d efile (fst kv) = inr (snd kv')) els' tels.
+Proof. exact ComposeSpec.compose_table_elements_partial. Qed.
+Print Assumptions compose_table_elements_partial.
+
+(* an inconsistent chain (component without the element, element file without the element, second ECP, missing file ...)
+   is refused, never composed *)
+Theorem compose_refuses : compose_refuses_stmt.
+Proof. exact ComposeSpec.compose_refuses. Qed.
+Print Assumptions compose_refuses.
+
+(* metadata overlay, version from the file name, function types recomputed; _partial: metadata file with duplicate-free
+   keys (a JSON object) and without "elements" *)
+Theorem compose_table_fields_partial :
+  forall d t b, compose_table_basis d t = inr b ->
+    (forall md, read_json_basis d (meta_path t) = inr (VDict md) -> NoDup (map fst md) /\ assoc "elements" md = None) ->
+    exists table meta md els',
+      read_json_basis d t = inr table /\
+      read_json_basis d (path_join (dirname t) (hd "" (split_on "." (basename t)) +++ ".metadata.json")) = inr meta /\
+      meta = VDict md /\ vfield "elements" b = inr (VDict els') /\
+      (forall k v, assoc k md = Some v -> k <> "molssi_bse_schema" -> vfield k b = inr v) /\
+      (assoc "version" md = None -> exists ver, nth_from_end (split_on "." (basename t)) 2 = inr ver /\ vfield "version" b = inr (VStr ver)) /\
+      (assoc "function_types" md = None -> exists ft, whole_basis_types els' = inr ft /\ vfield "function_types" b = inr (VStrs ft)) /\
+      (forall k, ~ In k ["elements"; "version"; "function_types"; "molssi_bse_schema"] -> assoc k md = None -> vfield k b = vfield k table).
+Proof. exact ComposeSpec.compose_table_fields_partial. Qed.
+Print Assumptions compose_table_fields_partial.
+
+Theorem whole_basis_types_spec : whole_basis_types_spec_stmt.
+Proof. exact ComposeSpec.whole_basis_types_spec. Qed.
+Print Assumptions whole_basis_types_spec.
+
+(* non-vacuity: a two-component directory composes *)
+Definition bse_tag (t : string) : string * val := ("molssi_bse_schema", VDict [("schema_type", VStr t); ("schema_version", VStr "0.1")]).
+Definition demo_shell : val := VDict [("function_type", VStr "gto"); ("region", VStr ""); ("angular_momentum", VList [VInt 0]);
+                                      ("exponents", VStrs ["1.0"]); ("coefficients", VList [VStrs ["1.0"]])].
+Definition demo_dir : datadir :=
+  [ ("x.1.table.json", VDict [bse_tag "table"; ("revision_description", VStr "r"); ("revision_date", VStr "2020-01-01");
+                              ("elements", VDict [("1", VStr "c/x.1.element.json")])]);
+    ("x.metadata.json", VDict [bse_tag "metadata"; ("names", VStrs ["X"]); ("tags", VList []); ("family", VStr "f");
+                               ("description", VStr "d"); ("role", VStr "orbital"); ("auxiliaries", VDict [])]);
+    ("c/x.1.element.json", VDict [bse_tag "element"; ("name", VStr "X"); ("description", VStr "e");
+                                  ("elements", VDict [("1", VDict [("components", VStrs ["c/a.1.json"; "c/b.1.json"])])])]);
+    ("c/a.1.json", VDict [bse_tag "component"; ("description", VStr "A"); ("data_source", VStr "");
+                          ("elements", VDict [("1", VDict [("references", VStrs ["ra"]); ("electron_shells", VList [demo_shell])])])]);
+    ("c/b.1.json", VDict [bse_tag "component"; ("description", VStr "B"); ("data_source", VStr "");
+                          ("elements", VDict [("1", VDict [("references", VStrs ["rb"]); ("electron_shells", VList [demo_shell])])])]) ].
+Example demo_composes : exists b, compose_table_basis demo_dir "x.1.table.json" = inr b.
+Proof. eexists. vm_compute. reflexivity. Qed.
